@@ -171,11 +171,46 @@ def gen_prog(rng, limit=1200):
         cnts = [max(1, u + rng.choice([0, 0, 0, -1, 1]) if u else 1) for u in users]
         caps = [rng.choice([0, 0, 1]), rng.choice([0, 1, 2]), 1, 1]
         p = {"caps": caps, "cnts": cnts, "actors": actors, "profile": prof}
+        if rng.random() < 0.8:
+            balance(p, rng)
         if not well_formed(p):
             continue
         if 4 <= size_estimate(p) <= limit and sum(1 for a in actors if n_transitions(a)) >= 2:
             return p
     return CORPUS[0]
+
+
+def balance(p, rng):
+    """most of the time give every Put a Get and every signalling SemAcq a SemRel, so that complete executions exist"""
+    acts = p["actors"]
+    for mb in (0, 1):
+        puts = sum(1 for ops in acts for o in ops if o[0] in (PUT, IPUT) and o[1] == mb)
+        gets = sum(1 for ops in acts for o in ops if o[0] in (GET, IGET) and o[1] == mb)
+        for _ in range(abs(puts - gets)):
+            room = [a for a in acts if len(a) < 8]
+            if not room:
+                break
+            a = rng.choice(room)
+            a.insert(rng.choice([0, len(a)]), [GET, mb, 0] if puts > gets else [PUT, mb, rng.choice([1, 2, 3])])
+    for s in (0, 1):
+        acq = sum(1 for ops in acts for o in ops if o[0] == SEMACQ and o[1] == s)
+        rel = sum(1 for ops in acts for o in ops if o[0] == SEMREL and o[1] == s)
+        for _ in range(max(0, acq - rel - p["caps"][s])):
+            room = [a for a in acts if len(a) < 8]
+            if not room:
+                break
+            a = rng.choice(room)
+            a.insert(rng.choice([0, len(a)]), [SEMREL, s, 0])
+
+
+def interleavings(p):
+    """number of interleavings of the actors' transition sequences if nothing ever blocked (upper bound for `none`)"""
+    from math import factorial
+    ts = [n_transitions(ops) for ops in p["actors"]]
+    r = factorial(sum(ts))
+    for t in ts:
+        r //= factorial(t)
+    return r
 
 
 def well_formed(p):
@@ -276,11 +311,14 @@ def run_models(progs):
 # ------------------------------------------------------------------------------------------------ simgrid-mc
 
 REDS = ["none", "dpor", "sdpor", "odpor"]
+NONE_LIMIT = 300          # `none` replays every interleaving: only used on programs with few of them
 
 
 def combos(p, full=True):
     cs = []
     for red in REDS:
+        if red == "none" and interleavings(p) > NONE_LIMIT:
+            continue
         for algo in ("DFS", "BeFS"):
             for strat in (("none", "uniform") if full else ("none",)):
                 cs.append((red, algo, strat))
